@@ -747,7 +747,8 @@ Definition spec_rec_complete (cs : list chrom) (ob : observed) : bool :=
 (* ---- recombination list against the phased output VCF alone (independent of the run's own transmission vector).
    In a trio, at a variant p where the parent is heterozygous and phased in phase set ps (GT a|b, PS = ps) and
    the child's allele inherited from that parent is known (child phased in the same set: first allele = paternal,
-   second = maternal; or child homozygous), the output VCF determines which of the parent's two haplotypes was
+   second = maternal; or, when genotypes are trusted, child homozygous -- with --distrust-genotypes an unphased
+   call keeps its input genotype, which need not be the solver's), the output VCF determines which of the parent's two haplotypes was
    transmitted.  Between two consecutive such variants p < q of one phase set (p not being the first variant of
    the set, whose successor pair find_recombination never examines) the transmitted haplotype changes iff the
    list holds an odd number of events of that child and set inside [p, q] that switch this parent's haplotype. *)
@@ -759,7 +760,7 @@ Definition call_at (ovc : list (list (Z * (list Z * option Z)))) (recs : list vr
   end.
 
 (* which : 0 = the child's paternal allele (parent = father), 1 = its maternal allele (parent = mother) *)
-Definition implied_transmission (ovc : list (list (Z * (list Z * option Z)))) (recs : list vrec)
+Definition implied_transmission (distrust : bool) (ovc : list (list (Z * (list Z * option Z)))) (recs : list vrec)
            (child parent : Z) (which : nat) (p : Z) : option (Z * Z) :=
   match call_at ovc recs parent p, call_at ovc recs child p with
   | Some (a :: b :: nil, Some ps), Some (cg, cps) =>
@@ -769,7 +770,7 @@ Definition implied_transmission (ovc : list (list (Z * (list Z * option Z)))) (r
           match cps with
           | Some ps' => if ps' =? ps then nth_error cg which else None
           | None => match cg with
-                    | x :: y :: nil => if (x =? y) && (0 <=? x) then Some x else None
+                    | x :: y :: nil => if negb distrust && (x =? y) && (0 <=? x) then Some x else None
                     | _ => None
                     end
           end in
@@ -781,9 +782,9 @@ Definition implied_transmission (ovc : list (list (Z * (list Z * option Z)))) (r
   end.
 
 (* the informative variants (position, phase set, transmitted haplotype) of one parent-child pair, in VCF order *)
-Definition informative (ovc : list (list (Z * (list Z * option Z)))) (recs : list vrec)
+Definition informative (distrust : bool) (ovc : list (list (Z * (list Z * option Z)))) (recs : list vrec)
            (child parent : Z) (which : nat) : list (Z * (Z * Z)) :=
-  flat_map (fun p => match implied_transmission ovc recs child parent which p with
+  flat_map (fun p => match implied_transmission distrust ovc recs child parent which p with
                      | Some x => [(p, x)]
                      | None => []
                      end) (dedup (map v_pos recs)).
@@ -813,22 +814,22 @@ Fixpoint consecutive_ok (chromname child : Z) (which : nat) (comps : list (Z * Z
       end
   end.
 
-Definition pair_ok (c : chrom) (ovc : list (list (Z * (list Z * option Z)))) (i : inst) (es : list rec_entry)
+Definition pair_ok (distrust : bool) (c : chrom) (ovc : list (list (Z * (list Z * option Z)))) (i : inst) (es : list rec_entry)
            (child parent : Z) (which : nat) : bool :=
-  let inf := informative ovc (c_records c) child parent which in
+  let inf := informative distrust ovc (c_records c) child parent which in
   forallb (fun ps => consecutive_ok (c_name c) child which (i_comps i) es
                                     (filter (fun x => fst (snd x) =? ps) inf))
           (dedup (map (fun x => fst (snd x)) inf)).
 
-Definition spec_rec_vs_vcf (cs : list chrom) (ob : observed) : bool :=
+Definition spec_rec_vs_vcf (distrust : bool) (cs : list chrom) (ob : observed) : bool :=
   match entries_of (ob_recs ob) with
   | None => false
   | Some es =>
       forallb (fun co =>
                  negb (c_selected (fst co)) ||
                  forallb (fun i =>
-                            forallb (fun t => pair_ok (fst co) (snd co) i es (fst t) (fst (snd t)) 0
-                                              && pair_ok (fst co) (snd co) i es (fst t) (snd (snd t)) 1)
+                            forallb (fun t => pair_ok distrust (fst co) (snd co) i es (fst t) (fst (snd t)) 0
+                                              && pair_ok distrust (fst co) (snd co) i es (fst t) (snd (snd t)) 1)
                                     (i_trios i))
                          (c_insts (fst co)))
               (combine cs (ob_vcf ob))
@@ -888,7 +889,7 @@ Definition chk_rec_genuine (k : case) : bool :=
 Definition chk_rec_complete (k : case) : bool :=
   negb (o_recs (k_opts k)) || spec_rec_complete (k_cs k) (k_ob k).
 Definition chk_rec_vs_vcf (k : case) : bool :=
-  negb (o_recs (k_opts k)) || spec_rec_vs_vcf (k_cs k) (k_ob k).
+  negb (o_recs (k_opts k)) || spec_rec_vs_vcf (k_distrust k) (k_cs k) (k_ob k).
 Definition chk_rec_cover (k : case) : bool :=
   negb (o_recs (k_opts k)) ||
   match k_inst_recs k with
